@@ -45,6 +45,7 @@ type Run struct {
 	jobDur       []time.Duration // recorded virtual duration per job frame
 	jobIdx       int
 	opWeights    []int
+	noCycle      bool
 	bigPull      bool
 	noSeek       bool
 	maxMinAge    time.Duration
@@ -161,6 +162,10 @@ func (r *Run) configure() {
 		w[opPublish] *= 2
 		w[opAck] *= 2
 	case "dl":
+		if t.Bool(60) {
+			// no seeks in this run: dead-letter cycles and chains are allowed (see noCycle)
+			w[opSeekTime], w[opSeekSnap], w[opSnapshot], w[opSnapCombo] = 0, 0, 0, 0
+		}
 		w[opNack] = 8
 		w[opDLSweep] = 6
 		w[opAdvance] *= 2
@@ -199,6 +204,11 @@ func (r *Run) configure() {
 	if !r.jobsOn {
 		w[opJob] = 0
 	}
+	// Several rows of one message on one subscription (dead-letter cycles, chains, two sources
+	// into one target) make "which row is this ack id" a guess; combined with seeks, which
+	// treat rows by their individual creation time and snapshot membership, the oracle would
+	// be guessing most of the time. A run therefore has either seeks or such topologies.
+	r.noCycle = w[opSeekTime]+w[opSeekSnap]+w[opSnapshot]+w[opSnapCombo] > 0
 	if r.faultsOn {
 		w[opFault] = 6
 		w[opRestart] = 1
@@ -560,6 +570,15 @@ func (r *Run) doCreateSub(i, ti int) *Violation {
 	cfg, req := r.genCfg(0, 0)
 	req.Name = name
 	req.Topic = tn
+	if r.noCycle && cfg.DLTopic != nil && !r.dlAllowed(name, tn, cfg.DLTopic) {
+		// redirect the policy to the sink topic if that is allowed, else drop it
+		if sk := r.M.LiveTopic(topicName(r.nTopics - 1)); sk != nil && r.dlAllowed(name, tn, sk) {
+			cfg.DLTopic = sk
+			req.DeadLetterPolicy.DeadLetterTopic = sk.Name
+		} else {
+			cfg.DLTopic, cfg.MaxAttempts, req.DeadLetterPolicy = nil, 0, nil
+		}
+	}
 	if r.T.Bool(20) {
 		req.Labels = map[string]string{"k": "v"}
 		cfg.Labels = req.Labels
@@ -613,6 +632,10 @@ func (r *Run) doUpdateSub(i int) *Violation {
 	req := &pubsubpb.Subscription{Name: name}
 	var paths []string
 	wantCode := codes.OK
+	ms0TopicName := ""
+	if ms != nil {
+		ms0TopicName = ms.Topic.Name
+	}
 	kinds := []int{0, 1, 2, 3, 4}
 	if r.Variant == "time" {
 		kinds = []int{1, 2, 1, 2, 0}
@@ -650,11 +673,21 @@ func (r *Run) doUpdateSub(i int) *Violation {
 		} else {
 			dn := topicName(t.Intn(r.nTopics))
 			n := int32(1 + t.Intn(6))
-			req.DeadLetterPolicy = &pubsubpb.DeadLetterPolicy{DeadLetterTopic: dn, MaxDeliveryAttempts: n}
-			if dt := r.M.LiveTopic(dn); dt != nil {
-				cfg.DLTopic, cfg.MaxAttempts = dt, n
+			dt := r.M.LiveTopic(dn)
+			if r.noCycle && dt != nil && !r.dlAllowed(name, ms0TopicName, dt) {
+				if sk := r.M.LiveTopic(topicName(r.nTopics - 1)); sk != nil && r.dlAllowed(name, ms0TopicName, sk) {
+					dt, dn = sk, sk.Name
+				}
+			}
+			if r.noCycle && dt != nil && !r.dlAllowed(name, ms0TopicName, dt) {
+				cfg.DLTopic, cfg.MaxAttempts = nil, 0 // (clears the policy instead)
 			} else {
-				wantCode = codes.NotFound
+				req.DeadLetterPolicy = &pubsubpb.DeadLetterPolicy{DeadLetterTopic: dn, MaxDeliveryAttempts: n}
+				if dt != nil {
+					cfg.DLTopic, cfg.MaxAttempts = dt, n
+				} else {
+					wantCode = codes.NotFound
+				}
 			}
 		}
 	case 4: // filter (applies to future messages only)
@@ -1872,4 +1905,25 @@ func (r *Run) doSnapCombo(i int) *Violation {
 		}
 	}
 	return r.doSeekSnap(target, ni)
+}
+
+// dlAllowed (noCycle runs): a dead-letter policy may only point from a non-sink topic to the
+// one sink topic (the highest-numbered one), subscriptions on the sink never have a policy,
+// and at most one subscription per source topic has one: no message can then reach a
+// subscription twice through forwarding.
+func (r *Run) dlAllowed(sub, ownTopic string, dt *MTopic) bool {
+	if r.nTopics < 2 {
+		return false
+	}
+	sink := topicName(r.nTopics - 1)
+	if dt.Name != sink || ownTopic == sink {
+		return false
+	}
+	own := r.M.LiveTopic(ownTopic)
+	for _, o := range r.M.AllSubs {
+		if o.Live && o.Name != sub && own != nil && o.Topic == own && o.Cfg.fullDL() {
+			return false
+		}
+	}
+	return true
 }
